@@ -225,3 +225,23 @@ let run_hdr (c : case) : string =
   Printf.sprintf "vfh=%s rd=%s size=%s" (String.concat "," (List.map (fun (a,_,_) -> a) rs))
     (String.concat "," (List.map (fun (_,b,_) -> b) rs)) (String.concat "," (List.map (fun (_,_,c) -> c) rs))
 let run_hdrm (c : case) : string = "vfh=" ^ vfh_of (get_bytes c "in")
+
+(* ---- pipeline traces (C08) ---- *)
+let run_pipe (c : case) : string =
+  let nj = get_int c "injobs" in
+  let cid s = if s = "s" then CSentinel else CJob (nat_of_int (int_of_string s)) in
+  let evs = List.filter_map (fun t ->
+    match String.split_on_char ':' t with
+    | [n; id] when id <> "?" ->
+      (match n with
+       | "enq" -> Some (EvEnqueue (cid id)) | "sub" -> Some (EvSubmitted (cid id)) | "off" -> Some (EvWkOffer (cid id))
+       | "take" -> Some (EvMgrTake (cid id)) | "recv" -> if id = "s" then None else Some (EvMgrRecv (cid id))
+       | "close" -> Some (EvMgrClose (cid id)) | "exit" -> Some EvMgrExit
+       | "woken" -> Some (EvWkWoken (cid id)) | "done" -> Some (EvWkDone (cid id))
+       | "cenq" -> Some EvCloseEnqueue | "coff" -> Some EvCloseOffer | "cdone" -> Some EvCloseDone
+       | _ -> None)
+    | _ -> None) (get_list c "itr") in
+  let unknown = List.exists (fun t -> match String.split_on_char ':' t with [_; "?"] -> true | _ -> false) (get_list c "itr") in
+  if unknown then "oracle_trace=fail:event-on-an-unknown-channel"
+  else if trace_ok (nat_of_int nj) evs then "oracle_trace=ok"
+  else "oracle_trace=fail:recorded-trace-is-not-a-run-of-the-pipeline-model"
